@@ -33,3 +33,10 @@ Definition obs_eqb (a b : obs) : bool :=
 
 Definition opt_mismatches (cases : list (N * optcase * obs)) : list N :=
   map (fun '(i, _, _) => i) (filter (fun '(_, c, e) => negb (obs_eqb (opt_model c) e)) cases).
+
+(* calculate_required_slot_size: case = (page, target, count) *)
+From RZ Require Import Model.EngineCfg.
+Definition slotcase := (N * N * N)%type.
+Definition slot_model (c : slotcase) : obs := let '(page, target, count) := c in [[4%N; slot_size page target count]].
+Definition slot_mismatches (cases : list (N * slotcase * obs)) : list N :=
+  map (fun '(i, _, _) => i) (filter (fun '(_, c, e) => negb (obs_eqb (slot_model c) e)) cases).
